@@ -2,6 +2,7 @@
 field- and configuration-level properties."""
 import base64
 import math
+import re
 import os
 
 import regex as rx
@@ -187,7 +188,7 @@ def str_opts(rng, light=False):
 def gen_num(rng, allow_float=True):
     r = rng.random()
     if r < 0.7 or not allow_float:
-        return rng.choice([-10, -1, 0, 1, 2, 3, 5, 10, 100, 65535, 2 ** 40])
+        return rng.choice([-10, -1, 0, 1, 2, 3, 5, 10, 100, 65535, 2 ** 40, 2 ** 53, -(2 ** 53), 2 ** 64])
     return rng.choice([-1.5, 0.0, 0.5, 1.0, 2.5, 1e10, math.inf, -math.inf])
 
 
@@ -428,7 +429,9 @@ STR_POOL = ["", "a", "abc", "ABC", "Abc", "  abc  ", "xabcx", "Xabc", "xXabcXx",
             "xax", "XaX", "xAAx", "xXaXx", "abxab", "-a-", "_ab_", "straße", "ßß", "ßßß", "aßa", "ﬁﬁ", "groß",
             "a\x85b", "tail\x85z", "a\n\nb", "a\n \nb", "see // docs", "x //", "#note", "#", "\u2028a", "a\u2029b"]
 INT_POOL = [0, 1, -1, 2, 3, 5, 10, 11, 99, 100, 101, 65535, 65536, 2 ** 40, 2 ** 53, -10, -11, "0", "5", " 7 ", "+3", "-4", "1_000", "1__0", "_1", "007",
-            "0x10", "1e3", "1.0", "abc", "", " ", "٣", "1٣", "１２", 1.0, 1.5, -1.5, 2.999, -0.0, 1e10, 1e300, 2.0 ** 60, "10", "100", "65535", "65536"]
+            "0x10", "1e3", "1.0", "abc", "", " ", "٣", "1٣", "１２", 1.0, 1.5, -1.5, 2.999, -0.0, 1e10, 1e300, 2.0 ** 60, "10", "100", "65535", "65536",
+            # integer text beyond 53 significant bits: exact, never through a float
+            2 ** 53 + 1, "9007199254740993", "-9007199254740993", "1234567890123456789", " 18446744073709551617 ", "9007199254740992"]
 FLOAT_POOL = [0, 1, -1, 10, 2 ** 53, 0.0, -0.0, 0.5, 1.5, -1.5, 2.5, 1e10, 1e300, 5e-324, math.inf, -math.inf, math.nan, "0.5", "1", " 2.5 ", "1e3", "inf",
               "-inf", "nan", "NaN", "Infinity", "1_0.5", ".5", "5.", "+1.5", "abc", "", "1,5", "0x1p3", "1e400", "٣", "2.50", "0.1", "0.25"]
 BOOL_POOL = ["t", "T", "true", "TRUE", "True", "1", "on", "On", "yes", "YES", "y", "f", "false", "FALSE", "0", "off", "no", "N", "n", "maybe", "", " true", "2",
@@ -446,7 +449,9 @@ URL_POOL = ["http://example.com", "https://a.b/c?d=e#f", "ftp://x", "mailto:a@b"
             "a:b", "a1:b", "é://x", "http://é.com", "x:", "javascript:alert(1)", "ht\ntp://x", "http://exa\tmple.com"]
 FILE_POOL = ["", "f.txt", "g.txt", "sub", "sub/g.txt", "missing", "@TMP/f.txt", "@TMP/sub", "@TMP/missing", "./f.txt", "sub/../f.txt", "~", "~/x", "/", "/etc", "/etc/passwd", "f.txt ",
              " f.txt", "a//b", "..", "."]
-BYTES_POOL = ["", "abc", "é", "𝄞", b"", b"abc", b"\x00\xff\x10", b"0123456789abcdef0", "A" * 50]
+BYTES_POOL = ["", "abc", "é", "𝄞", b"", b"abc", b"\x00\xff\x10", b"0123456789abcdef0", "A" * 50,
+              # base64 text that needs the characters 62 and 63 ('+' and '/'), with and without padding
+              b"~~~", b"???", b"\xfb\xff", b"a>b?c~", b"\xff\xfe\xfd\xfc\xfb\xfa", "~?~?"]
 SECRET_POOL = ["", "s3cr3t", "pässwörd", " x ", "a" * 40, "user:pass", " padded ", "tab\tend\t",
                "x\u00b2", "\ufb01x", "\u212b", "e\u0301", "\uff21\uff22"]          # not in NFC / NFKC form: a secret is its exact code points
 
@@ -467,6 +472,8 @@ def crafted_values(f):
         for b in (f.get("min"), f.get("max")):
             if isinstance(b, (int, float)) and b == b and abs(b) != float("inf"):
                 out += [b, b - 1, b + 1, str(b)]
+                if isinstance(b, int):
+                    out += [str(b - 1), str(b + 1)]
                 if k == "float":
                     out += [b - 0.5, b + 0.5]
         out += [0, -0.0] if (f.get("min") == 0 or f.get("max") == 0) else []
@@ -491,6 +498,20 @@ def crafted_values(f):
                 for m in {max(n - 1, 0), n, min(n + 1, 32)}:
                     out += ["0.0.0.0/%d" % m, "128.0.0.0/%d" % m if m >= 1 else "0.0.0.0/0", "255.255.255.255/%d" % m if m == 32 else "10.0.0.0/%d" % max(m, 8)]
     return out
+
+
+_PLAIN_INT = re.compile(r"\A[ \t]*[+-]?[0-9]+[ \t]*\Z")
+
+
+def independent_normal(f, v):
+    """the normal form of v for field f where the declaration alone fixes it, computed without the library: (True, want) or (False, None).
+    Only the unambiguous cases: a whole number (or plain ASCII decimal text of one) given to an integer field is that exact integer."""
+    if f.get("k") in ("int", "port") and not f.get("custom"):
+        if type(v) is int:
+            return True, v
+        if isinstance(v, str) and _PLAIN_INT.match(v):
+            return True, int(v)
+    return False, None
 
 
 def gen_value(rng, f, tmp="/nonexistent", p_wrong=0.15):
